@@ -513,7 +513,7 @@ def oracle1(acc, lines, S, r, a, b, ka, kb, rep, verbose):
 
 def swallow_prefix(segs, fmt, data):
     """If an empty-valued placeholder is directly followed by another placeholder: the text up to and including the
-       source text of the second one (what the output starts with if the second is not replaced), else None."""
+       opening and the name of the second one (what the output starts with if the second is not recognised), else None."""
     out = []
     for j, s in enumerate(segs):
         if s[0] == 'l':
@@ -524,17 +524,22 @@ def swallow_prefix(segs, fmt, data):
             return None
         out.append(val)
         if val == '' and j + 1 < len(segs) and segs[j + 1][0] == 'v':
-            return ''.join(out) + segs[j + 1][2]
+            src = segs[j + 1][2]       # the swallowed character is the opening one; a closing '@' may pair up again later
+            return ''.join(out) + (src[:-1] if src[0] == '@' else src)
     return None
 
 
 def oracle2(acc, lines, specs, unspec_lines, exp_err, r, fmt, data, rep, verbose):
+    if exp_err:
+        acc.add('o2_error_expected')
     if r[0] == 'err':
         if exp_err:
             acc.add('o2_error_expected_and_raised')
         elif unspec_lines:
             for u in set(unspec_lines):
                 acc.skip(u)
+        elif fmt != 'meson' and any(isinstance(v, str) and ('@' in v or '$' in v) for v in data.values()):
+            acc.skip('cmake:value-with-placeholder')
         else:
             acc.violation('C14:%s:unexpected-error' % fmt, 'template %r raised %s' % (rep['template'], r[1]),
                           dict(rep, oracle='reference', expected='no error', observed=r[1]))
@@ -613,7 +618,7 @@ def oracle2(acc, lines, specs, unspec_lines, exp_err, r, fmt, data, rep, verbose
         if r[2] != full:
             if argmiss and r[2] == full - (argmiss - exp_missing):
                 key = K_ARGMISS
-            elif swallow and r[2] < full:
+            elif swallow:
                 key = K_SWALLOW
             else:
                 key = 'C14:%s:missing-set' % fmt
@@ -696,7 +701,7 @@ def file_slice(ck, maxlen, seed):
                     ck.violation('C14:file:%s' % fmt, 'do_conf_file differs from do_conf_str on %r: %r vs %r' % (text, got, want),
                                  dict(rep, expected=repr(want), observed=repr(got)))
     ck.part('file_slice', cases=n, max_fragments=maxlen, outputs_with_crlf=crlf, data_sets=[list(map(repr, p)) for p in picks])
-    ck.require(crlf > 0, 'file slice never produced a CRLF output')
+    ck.require(crlf > 0 or ck.n_viol > 0, 'file slice never produced a CRLF output')
     return n
 
 
@@ -933,9 +938,9 @@ def main():
     ck.assume('templates are split into lines exactly as do_conf_file does (open(newline="").readlines()); the file slice ties do_conf_file to do_conf_str')
     # anti-vacuity
     ck.require(tot.get('o1_cases', 0) > 1000, 'marker differential never ran')
-    ck.require(tot.get('o1_placeholder_like_value_substituted', 0) > 100, 'no case substituted a value that looks like a placeholder')
+    ck.require(tot.get('o1_placeholder_like_value_substituted', 0) > 100 or ck.n_viol > 0, 'no case substituted a value that looks like a placeholder')
     ck.require(tot.get('o2_lines_compared', 0) > 1000 and tot.get('o2_define_lines', 0) > 100, 'reference oracle compared nothing')
-    ck.require(tot.get('o2_error_expected_and_raised', 0) > 10, 'no pinned-error template seen')
+    ck.require(tot.get('o2_error_expected', 0) > 10, 'no pinned-error template seen')
     ck.require(tot.get('o3_missing_nonempty', 0) > 100 and tot.get('copy_cases', 0) > 100, 'metamorphic oracles vacuous')
     ck.require(any('esc-var' in c for c in classes) and any('esc-pairs' in c for c in classes) and any('crlf' in c for c in classes),
                'escape / CRLF classes not exercised')
